@@ -12,7 +12,7 @@ From Coq Require Import List NArith ZArith Bool Arith Sorted String.
 From Coq.Strings Require Import Byte.
 From L4 Require Import Hex.
 From L4.model Require Import GoBase Router RouterSpec.
-From L4.proofs Require Import RouterProofs.
+From L4.proofs Require Import RouterProofs RouterTotal.
 Import ListNotations.
 Close Scope Z_scope.
 Open Scope nat_scope.
@@ -81,6 +81,23 @@ Proof. exact (c02_never_after_drop net now set_dl nread npush fuel d rs t s). Qe
 Theorem next_receives_connection_once : forall next,
   compile fuel d rs t next s = bind r next.
 Proof. exact (fun next => c02_next_once net now set_dl nread npush fuel d rs t next s). Qed.
+(* after a NON-TERMINAL route (ghost event ENext d i b2: its handlers called the last handler, leaving b2 available)
+   the next thing the invocation does at its depth concerns a later route — run or cached skip of an index > i —
+   or is the fallback, on the connection as the handlers left it (b2, extended by what was prefetched since);
+   or the connection is dropped *)
+Theorem nonterminal_continues_trace : forall pre i b2 post, own = pre ++ ENext d i b2 :: post ->
+  match proj d post with [] => True | e :: _ => next_ok d i b2 e end.
+Proof. exact (c02_nonterminal_continues_trace net now set_dl nread npush fuel d rs t s). Qed.
+
+(* after a route whose handlers did not hand the connection on (terminal handler, failing handler, or a nested
+   route list that ended the connection) nothing else runs: the invocation's later events at its depth are reads
+   or the error of that very route (everything else in own is deeper: min_depth), and the connection is not
+   handed on *)
+Theorem terminal_stops_trace : forall pre i b post, own = pre ++ ERun d i b :: post ->
+  (forall b2, ~ In (ENext d i b2) post) ->
+  Forall (in_chain_ev d i) (proj d post) /\ is_cont r = false.
+Proof. exact (c02_terminal_stops_trace net now set_dl nread npush fuel d rs t s). Qed.
+
 End C02.
 
 Section C02Steps.
@@ -96,7 +113,7 @@ Theorem nonterminal_continues : forall sub d i mss hs rest lm lnm stt nm (s s2 :
   anymatch mss (avail s) = Yes ->
   chain net now nread npush sub d i hs (fun st' => Cont st') (emit net now (ERun d i (avail s)) (clear net now set_dl s)) = Cont s2 ->
   pass net now set_dl nread npush sub d i (Route mss hs :: rest) lm lnm stt nm s
-  = pass net now set_dl nread npush sub d (S i) rest (Some i) (Some i) (setst stt i SYes) nm s2.
+  = pass net now set_dl nread npush sub d (S i) rest (Some i) (Some i) (setst stt i SYes) nm (emit net now (ENext d i (avail s2)) s2).
 Proof. exact (c02_nonterminal_continues net now set_dl nread npush). Qed.
 
 (* after a terminal route (or a failing handler) nothing else runs *)
@@ -115,6 +132,27 @@ Theorem terminal_stops_invocation : forall sub d rs dl next g lm lnm stt (nm : b
 Proof. exact (c02_terminal_stops_loop net now set_dl nread npush). Qed.
 End C02Steps.
 
+(* Totality: with fuel >= need_rs rs (a computed bound: (number of routes) * (MaxMatchingBytes + 1) +
+   MaxMatchingBytes + 2 passes per route list, one unit more per subroute nesting level) an invocation never
+   runs out of fuel, over any network that keeps an invariant under which a successful read returns at least
+   one byte.  The safety theorems above hold for every fuel; this one says the fuel the correspondence
+   checkers use (need_rs rs) is always enough. *)
+Theorem compile_total : forall net now set_dl nread npush (net_ok : net -> Prop),
+  (forall m n, net_ok n -> net_ok (snd (nread m n))) ->
+  (forall v n, net_ok n -> net_ok (set_dl v n)) ->
+  (forall b n, net_ok n -> net_ok (npush b n)) ->
+  (forall m n dta n', net_ok n -> 0 < m -> nread m n = (RData dta, n') -> dta <> []) ->
+  0 < CHUNK ->
+  forall fuel d rs t next (s : st net), fuel_ok rs fuel -> net_ok (nt s) ->
+  (forall s', is_exh (next s') = false) ->
+  is_exh (compile net now set_dl nread npush fuel d rs t next s) = false.
+Proof. exact RouterTotal.compile_total. Qed.
+
+(* the model as run by the correspondence checker (scripted network, no empty chunk) *)
+Theorem model_run_total : forall rs pre script, chunks_nonempty script ->
+  is_exh (s_serve (need_rs rs) rs pre script) = false.
+Proof. exact s_serve_total. Qed.
+
 (* Non-vacuity: three No-stable routes, the first decided No early (its cached verdict is used on the
    third pass: ESkip), the second undecided for two passes and not terminal, the third terminal. *)
 Open Scope string_scope.
@@ -125,7 +163,7 @@ Example c02_example_trace :
   let r := s_serve 20 ex_routes [] [Chunk (unhex "010203"); Chunk (unhex "040506"); Chunk (unhex "07")] in
   evs (res_st r) =
     [EArm; EArm; EArm; ESkip 0 0 (unhex "010203040506"); EClear; ERun 0 1 (unhex "010203040506");
-     ERead 0 1 (unhex "0102"); EClear; ERun 0 2 (unhex "03040506")]
+     ERead 0 1 (unhex "0102"); ENext 0 1 (unhex "03040506"); EClear; ERun 0 2 (unhex "03040506")]
   /\ is_cont r = false.
 Proof. vm_compute. split; reflexivity. Qed.
 
@@ -139,8 +177,12 @@ Print Assumptions fallback_is_last.
 Print Assumptions fallback_only_when_all_no.
 Print Assumptions fallback_never_after_drop.
 Print Assumptions next_receives_connection_once.
+Print Assumptions nonterminal_continues_trace.
+Print Assumptions terminal_stops_trace.
 Print Assumptions nonterminal_continues.
 Print Assumptions terminal_stops.
 Print Assumptions terminal_stops_invocation.
+Print Assumptions compile_total.
+Print Assumptions model_run_total.
 Print Assumptions c02_example_stable.
 Print Assumptions c02_example_trace.
